@@ -102,6 +102,10 @@ func buildCmpGrid() {
 	}
 	cmpData["dnegzero"] = math.Copysign(0, -1)
 	num("dnegzero", "0")
+	num("1_0e-1", "1")
+	num("1_0e+1", "100")
+	num("1_000e-3", "1")
+	num("2_5E-1", "2.5")
 	num("1", "1")
 	num("10", "10")
 	num("9", "9")
